@@ -107,6 +107,9 @@ func (m *MonC19) OnEnd(w *World) []Violation {
 	if m.armed && m.expected >= 0 && m.sent != m.expected && w.Failed == "" {
 		m.violate(w, "governed_requests_not_all_sent", "%s throttle limit %d: %d governed requests were sent in total, expected %d (nothing is pending and the system is quiescent)", m.Mode, m.Limit, m.sent, m.expected)
 	}
+	if st := stalledSubscriptions(w); len(st) > 0 && m.armed {
+		m.violate(w, "subscription_stalled", "nothing is outstanding, yet subscriptions still hold events back: %s", trunc(strings.Join(st, ", "), 300))
+	}
 	if m.armed && m.perItem && w.Failed == "" && w.Deadlock == "" && w.mq.PendingCount() == 0 {
 		m.progressPerItem(w)
 	}
